@@ -280,10 +280,12 @@ mod verif_kani {
             let mut e = old;
             let mut k = 0;
             while k < n { e.leaves[start + k] = va[k]; e.flags[start + k] = 1; k += 1; }
-            e.mark = std::cmp::max(old.mark, start + n);
+            // from the property (plain array): an empty write moves nothing
+            e.mark = if n > 0 { std::cmp::max(old.mark, start + n) } else { old.mark };
             let which: u8 = kani::any();
             if which == 0 { kani::assert(wf(&s) && t.metadata.is_empty(), "set_range/range-write-keeps-wf"); }
-            if which == 1 { kani::assert(same_leaves(&s, &e) && s.mark == e.mark, "set_range/range-write-writes-exactly-the-range"); }
+            if which == 1 { kani::assert(same_leaves(&s, &e), "set_range/range-write-writes-exactly-the-range"); }
+            if which == 3 { kani::assert(s.mark == e.mark, "set_range/range-write-high-water-mark"); }
             if which == 2 { kani::assert(same_flags(&s, &e), "set_range/range-write-marks-written-range"); }
         }
     }
